@@ -203,7 +203,16 @@ impl Default for StdinSpec {
     }
 }
 
+/// The durable state: path -> content.  Modification times travel in the same map under keys
+/// that no path can have (`\0mtime\0<path>`, 16 bytes: seconds and nanoseconds), so that a cloned
+/// file system carries them along; use `is_meta_key` when iterating over files.
 pub type Fs = BTreeMap<String, Vec<u8>>;
+
+const MTIME_PREFIX: &str = "\0mtime\0";
+
+pub fn is_meta_key(k: &str) -> bool {
+    k.starts_with('\0')
+}
 
 #[derive(Default)]
 pub struct World {
@@ -214,6 +223,8 @@ pub struct World {
     pub stdout_tty: bool,
     /// paths that behave like a FIFO / procfs file: data arrives, but metadata reports size 0
     pub sizeless: Vec<String>,
+    /// simulated modification times (absent = the epoch)
+    pub mtimes: BTreeMap<String, (i64, i64)>,
     pub stdout: Vec<u8>,
     pub stderr: Vec<u8>,
     pub argv: Vec<String>,
@@ -297,7 +308,15 @@ pub static KEEP_LOG: AtomicBool = AtomicBool::new(false);
 /// one byte at a time would otherwise log hundreds of thousands of lines).
 pub const LOG_CAP: usize = 4000;
 
+/// current simulated wall clock, without counting as a reading of the code under test
+fn clock_peek() -> (i64, i64) {
+    (CLOCK_SEC.load(Ordering::SeqCst), CLOCK_NSEC.load(Ordering::SeqCst))
+}
+
 impl World {
+    fn touch(&mut self, path: &str) {
+        self.mtimes.insert(path.to_string(), clock_peek());
+    }
     /// Commits the event line currently in `logbuf`: always hashed, kept as text only when a
     /// transcript was asked for (replay, `gen --run`).
     pub fn commit_log(&mut self) {
@@ -516,6 +535,7 @@ pub mod simstd {
                     if !exists {
                         if writing && (self.create || self.create_new) {
                             w.fs.insert(path.clone(), Vec::new());
+                            w.touch(&path);
                             crate::world::mirror_put(&path, b"");
                             ev!(w, "create {}", path);
                         } else {
@@ -526,6 +546,7 @@ pub mod simstd {
                     } else if writing && self.truncate {
                         let old = w.fs.get(&path).map(|v| v.len()).unwrap_or(0);
                         w.fs.insert(path.clone(), Vec::new());
+                        w.touch(&path);
                         crate::world::mirror_put(&path, b"");
                         ev!(w, "truncate {} (was {} bytes)", path, old);
                     } else {
@@ -671,6 +692,8 @@ pub mod simstd {
                 ev!(w, "write {} @{} {}/{}", f.path, f.pos, n, buf.len());
                 f.pos += n;
                 w.file_bytes_written += n;
+                let p = f.path.clone();
+                w.touch(&p);
                 Ok((n, die))
             });
             match r {
@@ -716,10 +739,24 @@ pub mod simstd {
 
         pub struct Metadata {
             len: u64,
+            mtime: (i64, i64),
         }
         impl Metadata {
             pub fn len(&self) -> u64 {
                 self.len
+            }
+            /// simulated modification time: the simulated clock at the last create / truncate /
+            /// write through the facade, or what the scenario says for files that existed before
+            pub fn modified(&self) -> io::Result<::std::time::SystemTime> {
+                let (s, n) = self.mtime;
+                Ok(if s >= 0 {
+                    ::std::time::UNIX_EPOCH + ::std::time::Duration::new(s as u64, n as u32)
+                } else {
+                    ::std::time::UNIX_EPOCH - ::std::time::Duration::new((-s) as u64, 0)
+                })
+            }
+            pub fn is_empty(&self) -> bool {
+                self.len == 0
             }
             pub fn is_file(&self) -> bool {
                 true
@@ -732,7 +769,7 @@ pub mod simstd {
         pub fn metadata<P: AsRef<::std::path::Path>>(path: P) -> io::Result<Metadata> {
             let path = crate::world::norm_path(&path.as_ref().to_string_lossy());
             with_world(|w| match w.fs.get(&path) {
-                Some(v) => Ok(Metadata { len: if w.sizeless.contains(&path) { 0 } else { v.len() as u64 } }),
+                Some(v) => Ok(Metadata { len: if w.sizeless.contains(&path) { 0 } else { v.len() as u64 }, mtime: w.mtimes.get(&path).copied().unwrap_or((0, 0)) }),
                 None => Err(io::Error::from_raw_os_error(libc::ENOENT)),
             })
         }
@@ -1246,7 +1283,9 @@ fn mirror_sync(fs: &Fs) {
         }
     }
     for (p, c) in fs {
-        mirror_put(p, c);
+        if !is_meta_key(p) {
+            mirror_put(p, c);
+        }
     }
 }
 
@@ -1272,6 +1311,9 @@ pub struct Exec {
     /// paths that behave like a FIFO (`/dev/stdin`, process substitution): metadata says size 0
     #[serde(default)]
     pub sizeless: Vec<String>,
+    /// modification times of files that exist before the execution (absent = the epoch)
+    #[serde(default)]
+    pub mtimes: BTreeMap<String, (i64, i64)>,
 }
 
 #[derive(Clone, Debug)]
@@ -1360,12 +1402,28 @@ pub fn execute(fs: &mut Fs, ex: &Exec, entry: fn()) -> Outcome {
         StdinSpec::Pipe(s) => (s.clone().into_bytes(), false),
         StdinSpec::PipeBytes(b) => (b.clone(), false),
     };
+    // durable modification times travel inside `fs` (see `Fs`)
+    let mut durable_mtimes: BTreeMap<String, (i64, i64)> = BTreeMap::new();
+    let meta: Vec<String> = fs.keys().filter(|k| is_meta_key(k)).cloned().collect();
+    for k in meta {
+        if let (Some(v), Some(path)) = (fs.remove(&k), k.strip_prefix(MTIME_PREFIX)) {
+            if v.len() == 16 {
+                let s = i64::from_le_bytes(v[..8].try_into().unwrap());
+                let n = i64::from_le_bytes(v[8..].try_into().unwrap());
+                durable_mtimes.insert(path.to_string(), (s, n));
+            }
+        }
+    }
+    for (k, v) in &ex.mtimes {
+        durable_mtimes.insert(k.clone(), *v);
+    }
     let world = World {
         fs: std::mem::take(fs),
         stdin,
         stdin_tty: tty,
         stdout_tty: ex.stdout_tty,
         sizeless: ex.sizeless.clone(),
+        mtimes: durable_mtimes,
         argv: ex.argv.clone(),
         plan: ex.io.clone(),
         rng: ex.io.seed ^ 0xA5A5_5A5A_DEAD_BEEF,
@@ -1436,6 +1494,14 @@ pub fn execute(fs: &mut Fs, ex: &Exec, entry: fn()) -> Outcome {
     }
     ev!(world, "clock reads={} first={:?}", clock.reads, clock.first);
     *fs = std::mem::take(&mut world.fs);
+    for (path, (s, n)) in &world.mtimes {
+        if fs.contains_key(path) {
+            let mut v = Vec::with_capacity(16);
+            v.extend_from_slice(&s.to_le_bytes());
+            v.extend_from_slice(&n.to_le_bytes());
+            fs.insert(format!("{}{}", MTIME_PREFIX, path), v);
+        }
+    }
     Outcome {
         status,
         stdout: world.stdout,
